@@ -219,6 +219,8 @@ class Ctx:
                     kw["required"] = False
                 if f.get("on_error"):
                     kw["on_error"] = f["on_error"]
+                if f.get("discriminator"):
+                    kw["discriminator"] = f["discriminator"]
                 kw.update(cons_attrs(f.get("fcons"), self))
                 if kw:
                     g[f"F{k}_{i}"] = Field(**kw)
@@ -317,13 +319,23 @@ class Ctx:
         if "data" in d:
             k = d["data"]
             return f'"D{k}{self.sfx}"' if (cur is not None and cur >= 0 and k >= cur) else f"D{k}{self.sfx}"
+        if "apply" in d:
+            import utype
+            a = d["apply"]
+            self.nrule += 1
+            name = f"A{self.nrule}"
+            self.g[name] = utype.apply(**cons_attrs(a.get("cons"), self))(leaf_class(a["base"], self))
+            return name
         if "late" in d:
             name = f"L{d['late']}{self.sfx}"
             return f'"{name}"' if self.quote_late else name
         if "rule" in d:
             r = d["rule"]
             bases = [leaf_class(r["base"], self)] if r.get("base") else []
-            return self.new_rule(bases, cons_attrs(r.get("cons"), self))
+            attrs = cons_attrs(r.get("cons"), self)
+            if r.get("ropts"):
+                attrs["__options__"] = make_options(r["ropts"])      # options carried by the Rule subclass itself: used by `T(v)`
+            return self.new_rule(bases, attrs)
         if "gen" in d:
             kind = d["gen"]
             args = [self.expr(a, cur) for a in d["args"]]
@@ -410,8 +422,10 @@ def tree(T, ctx):
     if isinstance(T, LogicalType) and T.combinator:
         return {"comb": T.combinator, "args": [tree(a, ctx) for a in T.args]}
     if isinstance(T, type) and issubclass(T, Rule):
-        if getattr(T, "contains", None) or getattr(T, "__applied__", False) or getattr(T, "__abstract__", False):
-            raise Unsupported("contains / applied / abstract rule")
+        if getattr(T, "contains", None) or getattr(T, "__abstract__", False):
+            raise Unsupported("contains / abstract rule")
+        if T.__dict__.get("__options__") is not None and not T.__dict__["__options__"].vacuum:
+            raise Unsupported("Rule-level __options__ (oracle only)")
         if T.pre_validate.__func__ is not Rule.pre_validate.__func__ or T.post_validate.__func__ is not Rule.post_validate.__func__:
             raise Unsupported("custom hooks")
         origin = T.__origin__
@@ -421,7 +435,14 @@ def tree(T, ctx):
             raise Unsupported(f"args parser {pname}")
         args = [] if k == "none" else [tree(a, ctx) for a in (T.__args__ or ())]
         vs = [[f.__name__, pv_enc(val)] for _key, val, f in T.__validators__]
-        return {"rule": {"origin": None if origin is None else tree(origin, ctx), "k": k, "args": args, "vs": vs}}
+        node = {"rule": {"origin": None if origin is None else tree(origin, ctx), "k": k, "args": args, "vs": vs}}
+        if getattr(T, "__applied__", False):
+            # @utype.apply: an instance of the decorated class is final (rule.py:1713-1718)
+            ot = node["rule"]["origin"]
+            if not (isinstance(ot, dict) and ("cls" in ot or "obj" in ot or "enum" in ot)) or k != "none":
+                raise Unsupported("applied rule on a non-class origin")
+            return {"applied": ot, "inner": node}
+        return node
     if isinstance(T, type):
         for k, e in enumerate(ctx.enums):
             if T is e:
@@ -494,9 +515,19 @@ def env_of(ctx) -> dict:
 # the oracle: Conforms, in the property's own words, on the live result (declared descriptor driven)
 # ------------------------------------------------------------------------------------------------
 
+_CUR_CTX = [None]
+
+
 class Viol(Exception):
-    def __init__(self, kind, node, got, extra=None):
+    def __init__(self, kind, node, got, extra=None, val=None):
         self.info = {"kind": kind, "node": node, "got": got, "extra": extra}
+        if val is not None:
+            try:
+                j = enc(val, _CUR_CTX[0]) if _CUR_CTX[0] is not None else c12.enc(val, None)
+                if len(json.dumps(j)) < 400:
+                    self.info["val"] = j
+            except Exception:
+                pass
 
 
 def _tn(v):
@@ -522,7 +553,7 @@ def check_cons(cons, r, node):
                 except Exception:
                     continue
                 if not same:
-                    raise Viol("constraint", node, _tn(r), name)
+                    raise Viol("constraint", node, _tn(r), name, val=r)
                 continue
             ok = sat(name, r, b)
         except Undefined:
@@ -532,7 +563,7 @@ def check_cons(cons, r, node):
         except Exception:
             continue
         if not ok:
-            raise Viol("constraint", node, _tn(r), name)
+            raise Viol("constraint", node, _tn(r), name, val=r)
 
 
 def eff_fields(datas, k) -> list:
@@ -588,6 +619,11 @@ def conforms(d, r, ctx, opts, depth=0):
         return
     if "late" in d:
         conforms(ctx.case["lates"][d["late"]], r, ctx, opts, depth + 1)
+        return
+    if "apply" in d:
+        if not isinstance(r, leaf_class(d["apply"]["base"], ctx)):
+            raise Viol("type", d, _tn(r))
+        check_cons(d["apply"].get("cons"), r, d)
         return
     if "data" in d:
         cls = ctx.datas[d["data"]]
@@ -780,6 +816,7 @@ def impl(case):
         ctx = Ctx(case)
     except Exception as e:
         return {"decl": f"{type(e).__name__}: {e}"[:200]}
+    _CUR_CTX[0] = ctx
     try:
         try:
             thunk, handle, options = build_call(case, ctx, False)
@@ -872,6 +909,9 @@ def _walk_json_values(j, acc):
 
 def _tree_cons(t, acc):
     if isinstance(t, dict):
+        if "applied" in t:
+            _tree_cons(t["inner"], acc)
+            return
         if "rule" in t:
             for n, b in t["rule"]["vs"]:
                 acc.append((n, pyval.decode(b)))
@@ -904,6 +944,9 @@ def _prim_classes(t, acc):
     """classes whose converted values reach a validator that consults a CPython builtin (`str(float)`, `Decimal(str(x))`,
     `round`, `re.fullmatch`)"""
     if isinstance(t, dict):
+        if "applied" in t:
+            _prim_classes(t["inner"], acc)
+            return
         if "rule" in t:
             r = t["rule"]
             names = {n for n, _ in r["vs"]}
@@ -1310,7 +1353,15 @@ def gen_type(rng, depth=0, hashable=False, ndatas=0, typing_ok=True, allow_data=
         return leaf(rng, hashable)
     if r < 0.50:
         b = rng.choice(["int", "int", "float", "Decimal", "str", "str", "bytes"] if not hashable else ["int", "str", "Decimal"])
+        if not hashable and rng.random() < 0.07:
+            # @utype.apply(...) on a class (a builtin, or a user class)
+            base = {"t": b}
+            if b in c12.SUBS and rng.random() < 0.5:
+                base["sub"] = 1
+            return {"apply": {"base": base, "cons": _strict(gen_cons(rng, b, allow_lax=False))}}
         d = {"rule": {"base": {"t": b}, "cons": gen_cons(rng, b)}}
+        if depth == 0 and rng.random() < 0.08:
+            d["rule"]["ropts"] = gen_opts(rng, unsafe_ok=False)
         if rng.random() < 0.04 and b in c12.SUBS:
             d["rule"]["base"]["sub"] = 1
         if rng.random() < 0.03:
@@ -1590,6 +1641,25 @@ def gen_value(rng, d, ctx_unused, good=0.75, datas=None, depth=0):
         return rng.choice([{"o": d["obj"]}, {"o": 1 - d["obj"]}, E("x"), E(1), None])
     if "t" in d:
         return _pool_value(rng, d["t"], good)
+    if "apply" in d:
+        base = d["apply"]["base"].get("t")
+        vals = _cons_values(rng, base, d["apply"].get("cons"))
+        if vals and rng.random() < 0.7:
+            bcls = c12._cls(base, 0)
+            cls = c12._cls(base, d["apply"]["base"].get("sub", 0))
+            inst = [x for x in vals if type(x) is bcls]
+            for _ in range(4):
+                try:
+                    if inst and rng.random() < 0.6:
+                        x = cls(rng.choice(inst))          # an instance of the decorated class: handed back as it is
+                    else:
+                        x = rng.choice(vals)
+                    j = E(x)
+                    if not has_x(j):
+                        return j
+                except Exception:
+                    continue
+        return _pool_value(rng, base or "str", good)
     if "rule" in d:
         base = (d["rule"].get("base") or {}).get("t")
         vals = _cons_values(rng, base, d["rule"].get("cons"))
@@ -1675,6 +1745,8 @@ def _base_of(ty, lates):
             return _base_of(lates[ty["late"]], lates)
         if "rule" in ty:
             return (ty["rule"].get("base") or {}).get("t")
+        if "apply" in ty:
+            return ty["apply"]["base"].get("t")
         if "t" in ty:
             return ty["t"]
         if "gen" in ty:
@@ -2000,8 +2072,50 @@ def gen_fn_case(rng):
     return case
 
 
+def gen_disc_case(rng):
+    """a field whose type is a union of data classes selected by a discriminator (`Field(discriminator='kind')`,
+    field.py:1057-1092: the type is chosen from `discriminator_map`, the value made a dict first).  Outside the model."""
+    tags = ["a", "b", "cc"][: rng.choice([2, 2, 3])]
+    datas = []
+    for i, tag in enumerate(tags):
+        kf = {"name": "kind", "ty": {"rule": {"base": {"t": "str"}, "cons": [["const", PV(tag)]]}}}
+        if rng.random() < 0.3:
+            kf["default"] = E(tag)
+        b = rng.choice(["int", "str", "float"])
+        ty = {"t": b} if rng.random() < 0.5 else {"rule": {"base": {"t": b}, "cons": _strict(gen_cons(rng, b, allow_lax=False))}}
+        datas.append({"fields": [kf, {"name": "xyz"[i], "ty": ty}]})
+    n = len(datas)
+    union = {"comb": "|", "args": [{"data": i} for i in range(n)], "style": "typing"}
+    top = {"fields": [{"name": "item", "ty": union, "discriminator": "kind"}]}
+    if rng.random() < 0.3:
+        top["fields"][0]["ty"] = {"opt": union, "style": "typing"}
+        top["fields"][0]["default"] = None
+    if rng.random() < 0.3:
+        top["opts"] = gen_opts(rng, unsafe_ok=False)
+    datas.append(top)
+    i = rng.randrange(n)
+    tag = rng.choice([tags[i], tags[i], tags[i], "zz", tags[(i + 1) % n]])
+    inner = [[E("kind"), E(tag)]]
+    f = datas[i]["fields"][1]
+    pv = pick_valid(rng, f["ty"]) if rng.random() < 0.7 else None
+    inner.append([E(f["name"]), (pv if rng.random() < 0.6 else _as_text(pv)) if pv is not None else gen_value(rng, f["ty"], None, 0.8)])
+    if rng.random() < 0.2:
+        inner = inner[1:]
+    item = {"m": inner}
+    r = rng.random()
+    if r < 0.15:
+        item = _jsonish(rng, item) or item
+    elif r < 0.25:
+        item = {"q": [{"q": [a, b], "k": "tuple"} for a, b in inner], "k": "list"}
+    elif r < 0.3:
+        item = None
+    return {"ty": {"data": n}, "via": "init", "datas": datas, "value": {"m": [[E("item"), item]]}, "enums": ENUMS}
+
+
 def gen_case(rng):
     r0 = rng.random()
+    if r0 < 0.03:
+        return gen_disc_case(rng)
     if r0 < 0.10:
         return gen_late_case(rng)
     if r0 < 0.17:
@@ -2200,6 +2314,9 @@ def _shape(d, depth=0) -> str:
         return "data"
     if "late" in d:
         return "late"
+    if "apply" in d:
+        names = sorted(c[0] for c in d["apply"].get("cons") or [])
+        return f"apply({_shape(d['apply']['base'])};{','.join(names)})"
     if "rule" in d:
         b = d["rule"].get("base")
         names = sorted(("lax_" if len(c) > 2 and c[2] else "") + c[0] for c in d["rule"].get("cons") or [])
@@ -2320,6 +2437,7 @@ class C01(Check):
 
     # ---- the property's predicate on what the implementation returned -----------------------------
     def spec(self, case, io, mo):
+        self._mo = mo                # (classify is called right after spec for the same case)
         if not isinstance(io, dict) or "decl" in io:
             return None
         v = io.get("viol")
@@ -2333,6 +2451,7 @@ class C01(Check):
         return None
 
     def classify(self, case, io, why):
+        self._io_out = io.get("out") if isinstance(io, dict) else None
         v = (io.get("viol") or {})
         info = v.get("out") or v.get("out_collect")
         if not info:
@@ -2348,8 +2467,42 @@ class C01(Check):
         node = info["node"]
         if not isinstance(node, dict):
             return None
-        cons = (node.get("rule") or {}).get("cons") if "rule" in node else node.get("cons")
-        base = (node.get("rule") or {}).get("base") if "rule" in node else ({"t": GEN_BASE[node["gen"]], "sub": node.get("sub", 0)} if "gen" in node else node if "t" in node else None)
+        if "apply" in node and info["kind"] == "constraint" and "val" in info:
+            # the offending value is an instance of the decorated class that was handed in (possibly inside a container):
+            # final for @utype.apply, the constraints are skipped
+            subs = []
+            for j in ([case["value"]] if case["via"] != "fn" else list(case["value"]["args"]) + list(case["value"]["kwargs"].values())):
+                _subvalues(j, subs)
+            for x in list(subs):
+                # (texts that are read as JSON / a Python literal on the way hand their items in as well)
+                t = x.get("s") if isinstance(x, dict) else None
+                if isinstance(t, str):
+                    for load in (json.loads, __import__("ast").literal_eval):
+                        try:
+                            _subvalues(c12.enc(load(t), None), subs)
+                            break
+                        except Exception:
+                            continue
+            if any(canon(x) == canon(info["val"]) for x in subs):
+                return "applied-instance-skips-constraints"
+            if isinstance(info["val"], dict) and set(info["val"]) == {"s"}:
+                # a str instance cut out of / decoded from a text or bytes of the input by the enclosing conversion
+                texts = []
+                for x in subs:
+                    _walk_json_values(x, texts)
+                texts = [t for t in texts if isinstance(t, str)]
+                pieces = {p.strip() for t in texts for p in re.split(r"[,;]", t)} | set(texts) | {t.strip() for t in texts}
+                if info["val"]["s"] in pieces:
+                    return "applied-instance-skips-constraints"
+            # an instance produced on the way (by an earlier `&` condition, by the enclosing container's conversion): the
+            # model — which mirrors the shortcut and nothing else that could skip a validator — predicts this very result
+            mo, out = getattr(self, "_mo", None), (getattr(self, "_io", None) or {})
+            if isinstance(mo, dict) and "ok" in mo and isinstance(self._io_out, dict) and "ok" in self._io_out \
+                    and canon(mo["ok"]) == canon(self._io_out["ok"]):
+                return "applied-instance-skips-constraints"
+            return None
+        cons = (node.get("rule") or {}).get("cons") if "rule" in node else (node["apply"].get("cons") if "apply" in node else node.get("cons"))
+        base = (node.get("rule") or {}).get("base") if "rule" in node else (node["apply"]["base"] if "apply" in node else ({"t": GEN_BASE[node["gen"]], "sub": node.get("sub", 0)} if "gen" in node else node if "t" in node else None))
         lax = [c for c in (cons or []) if len(c) > 2 and c[2]]
         if lax:
             if info["kind"] == "type" and any(c[0] == "const" for c in lax):
@@ -2385,6 +2538,13 @@ class C01(Check):
                 return "subclass-result-plain"            # to_timedelta: sign * t(**kw) for a duration text
             if base["t"] == "Decimal" and any(c[0] == "decimal_places" for c in (cons or [])):
                 return "subclass-result-plain"            # round() in the decimal_places validator
+            if base["t"] in ("int", "time", "timedelta"):
+                # the text / datetime arose on the way (an earlier `&` condition, the enclosing container's conversion):
+                # Conv.lean mirrors exactly these three branches, and the model predicts this very result
+                mo = getattr(self, "_mo", None)
+                if isinstance(mo, dict) and "ok" in mo and isinstance(self._io_out, dict) and "ok" in self._io_out \
+                        and canon(mo["ok"]) == canon(self._io_out["ok"]):
+                    return "subclass-result-plain"
         return None
 
     def neighbours(self, case, rng):
